@@ -14,6 +14,7 @@ fn main() {
         let kind = v["kind"].as_str().unwrap_or("").to_string();
         let still = match kind.as_str() {
             "uni-trace" => props::uni::replay(&v["case"]),
+            "exec-trace" => props::ros::replay(&v["case"]),
             _ => machinery_error(&format!("unknown replay kind {kind}")),
         };
         if still {
@@ -32,6 +33,7 @@ fn main() {
     let mut ctx = Ctx::new(&id, tier);
     let (level, cov, assumptions) = match id.as_str() {
         "C01" | "C02" | "C03" | "C18" => props::uni::run(&id, &mut ctx),
+        "C04" | "C05" => props::ros::run(&id, &mut ctx),
         _ => machinery_error(&format!("unknown property {id}")),
     };
     std::process::exit(ctx.finish(&level, cov, assumptions));
